@@ -1,11 +1,16 @@
 """C19 — ONNX Runtime fusions preserve numerical results.
 
-Proof obligations: lean/OV/Props/C19.lean (models: OV.Model.C19Fusions, OV.Model.C19Index; lemmas
-OV.Lemmas.C19Algebra).  Tie: correspondence on the DECISION and the EMITTED ATTRIBUTES / input wiring:
+Proof obligations: lean/OV/Props/C19.lean (models: OV.Model.C19Fusions, OV.Model.C19Core, OV.Model.C19Index;
+lemmas OV.Lemmas.C19Shape, OV.Lemmas.C19Perm).  Tie: correspondence on the DECISION and the EMITTED ATTRIBUTES / input wiring:
 for every generated pattern instance or near-miss (harness/c19_fams.py, built with onnx.helper over the
 configuration space of each fusion) the real `fuse_*` entry point of /repo is run on the model and the
 fused graph is canonicalised (`count=… Op@domain{attrs}(inputs)->nout`); the compiled Lean driver computes
 the same line from the facts the rule reads (shapes, dtypes, constants, attributes, operand orders).
+Translator: harness/c19_extract.py re-reads ort_fusions/_core.py (statement sequences of fuse_xformers / _pre_optimize /
+optimize_for_ort, guards, keyword arguments, rule-list order; the isclose tolerances of sdpa.py; the rule order of
+softmax.py) and regenerates OV/Gen/C19Core.lean before the obligations are checked (`core_tables_match_model`).
+History: every case whose first application fired is fed back once to the same entry point (second-application
+stream: counts vs driver `second <line>`, onnxruntime vs the ORIGINAL model).
 Search / oracle: onnxruntime CPU (optimisations off) on the model before vs after the fusion and before vs
 after `optimize_for_ort`, random inputs, rtol/atol by dtype.
 """
@@ -19,6 +24,7 @@ from collections import Counter
 import numpy as np
 import onnx
 
+from harness import c19_extract as X
 from harness import c19_fams as F
 from harness import c19_lib as L
 from harness import core
@@ -68,6 +74,8 @@ def classify(c: dict, obs: str, detail: str) -> str | None:
             return "C19-F11"
     if fam == "mhab" and obs.split(" ")[0].endswith("/1") and c["qb"] and c["qb_shape"] != "D":
         return "C19-F12"
+    if fam == "pipe" and detail.startswith("FAIL:second application") and c["q_proj"] == "scale_bias" and not c.get("mask1d"):
+        return "C19-F16"
     if fam == "rms" and fired(obs):
         if c["scale_cast"] and c["sdt"] != c["tdt"] and ",scale)" in obs:
             return "C19-F6"
@@ -193,6 +201,12 @@ REQUIRED_BRANCHES = [
     "shapeopt:Constant",
     "pqkv:count=1", "pqkv:count=0", "attn:count=1", "attn:count=0", "i2g:count=1", "i2g:count=0",
     "mhab:count=1/1", "mhab:count=0/1", "mhab:count=1/0", "mhab:count=0/0",
+    # second-application stream: every family's fused output is fed back once; pipe with each query form
+    "second:rms:fixpoint", "second:skip:fixpoint", "second:gelu:fixpoint", "second:biasgelu:fixpoint", "second:softmax:fixpoint",
+    "second:fmm:fixpoint", "second:rope:fixpoint", "second:rope:fired", "second:sdpa:fixpoint", "second:mha:fixpoint",
+    "second:i2g:fixpoint", "second:attn:fixpoint", "second:gqa:fixpoint", "second:pqkv:fixpoint", "second:mhab:fixpoint",
+    "second:shapeopt:fixpoint", "second:pipe:fixpoint", "second:pipe:fired",
+    "second:pipe:none", "second:pipe:scale", "second:pipe:bias", "second:pipe:scale_bias", "second:pipe:bias_scale",
 ]
 
 
@@ -295,9 +309,53 @@ def run_case(c: dict, nrng, stats: Counter, numeric: bool = True, e2e: bool = Fa
     else:
         out["res"] = "ok"
         stats["unchanged"] += 1
+    if fired(obs) and obs != "EXC" and not out["res"].startswith("FAIL"):
+        second_application(fam, c, model, mp, feeds, ref, dt, out, stats, nrng)
     if e2e:
         out["res_e2e"] = run_e2e(mp, feeds, ref, dt, stats)
     return out
+
+
+def second_application(fam, c, model, mp, feeds, ref, dt, out, stats, nrng) -> None:
+    """History stream: the SAME entry point once more on the model it has just fused (re-used rule objects, a fused
+    node as input).  Tied: the counts of the second call (`C19 second <line>`); oracle: onnxruntime on the twice-fused
+    model vs the ORIGINAL model's outputs, whenever the second call changed anything."""
+    try:
+        cnt2 = fam.fuse(model)
+    except Exception as e:
+        out["obs2"] = "EXC"
+        out["res2"] = "FAIL:the second application raised " + type(e).__name__ + ": " + str(e)[:160].replace("\n", " ")
+        stats["second:raised"] += 1
+        return
+    out["obs2"] = str(cnt2).split(" ")[0]  # some families append wiring details to their counts
+    stats["second:runs"] += 1
+    if not fired(f"count={cnt2}"):
+        out["res2"] = "ok"
+        return
+    stats["second:fired"] += 1
+    try:
+        if hasattr(fam, "post"):
+            fam.post(model)
+        proto2 = L.to_proto(model)
+        d = L.compare(ref, L.ort_run(proto2, feeds), dt)
+        if d is not None and dt == "f16" and "shape" not in d and "count" not in d:
+            again = 0
+            for _ in range(3):
+                f2 = fam.feeds(c, nrng)
+                if hasattr(fam, "extra_feeds"):
+                    f2.update(fam.extra_feeds(c, mp))
+                if L.compare(L.ort_run(mp, f2), L.ort_run(proto2, f2), dt) is not None:
+                    again += 1
+            if again < 2:
+                d = None
+        out["res2"] = "ok" if d is None else "FAIL:second application: " + d
+        stats["second:numeric_compared"] += 1
+    except Exception as e:
+        msg = str(e)
+        if is_no_kernel(msg):
+            out["res2"] = "skip:decision-only (no CPU kernel)"
+        else:
+            out["res2"] = "FAIL:twice-fused model rejected by onnxruntime: " + msg[:260].replace("\n", " ")
 
 
 def run_e2e(mp, feeds, ref, dt, stats) -> str:
@@ -369,6 +427,51 @@ def repo_models(stats: Counter, nrng, tier: str):
     return problems
 
 
+# --------------------------------------------------------------------------- translator: _core.py -> OV/Gen/C19Core.lean
+
+
+def regen_core_table(run: core.Run):
+    """Re-read `_core.py` (+ the isclose tolerances of sdpa.py, the rule order of softmax.py) from the tree under
+    test and regenerate OV/Gen/C19Core.lean; `core_tables_match_model` (decide +kernel) is then re-checked by `prove`."""
+    try:
+        data = X.extract(core.REPO)
+    except (OSError, SyntaxError) as e:
+        raise core.Infra(f"c19_extract: cannot read ort_fusions/_core.py: {e}") from e
+    gen = core.LEAN / "OV" / "Gen" / "C19Core.lean"
+    changed = False
+    if not (gen.exists() and gen.read_text() == X.emit_lean(data)):
+        with core.lake_lock():
+            _, changed = X.write_lean(data, core.LEAN)
+    run.coverage["core_table"] = {
+        "digest": X.digest(data),
+        "regenerated_file_changed": changed,
+        "rows": {k: len(v) for k, v in data.items()},
+        "stage_keys": [k for g, k, _ in data["fuseXformersSteps"] if k and not g.startswith("if:")],
+        "unrecognised_statements": [c for rows in (data["fuseXformersSteps"], data["preOptimizeSteps"], data["optimizeForOrtSteps"])
+                                    for _, _, c in rows if c.startswith("?")],
+    }
+    return data, changed
+
+
+def core_table_diff(drv, data: dict) -> list[str]:
+    """Row-by-row difference between the extracted tables and what the model assumes (driver `C19 coretable`) —
+    the same comparison `core_tables_match_model` makes inside Lean, repeated here to NAME the differing row."""
+    keys = ["fuseXformersSteps", "preOptimizeSteps", "optimizeForOrtSteps", "ortPatternRules", "sdpaDefaultScaleTest", "softmaxRuleOrder"]
+    outs = drv.ask([f"coretable which={k}" for k in keys])
+    if any(o.startswith("ERR:") for o in outs):
+        raise core.Infra("drv_c19 does not know `coretable` (stale driver binary): rebuild drv_c19")
+    diffs = []
+    for k, o in zip(keys, outs):
+        model_rows = [r for r in o.split("¶")] if o else []
+        src_rows = [r if isinstance(r, str) else "§".join(r) for r in data[k]]
+        for n in range(max(len(model_rows), len(src_rows))):
+            a = src_rows[n] if n < len(src_rows) else "<absent>"
+            b = model_rows[n] if n < len(model_rows) else "<absent>"
+            if a != b:
+                diffs.append(f"{k}[{n}]: source `{a.replace('§', ' | ')}` vs model `{b.replace('§', ' | ')}`")
+    return diffs
+
+
 # --------------------------------------------------------------------------- main
 
 
@@ -378,16 +481,26 @@ def main(run: core.Run) -> None:
         "rounding and the ORT contrib kernels are only OBSERVED through onnxruntime 1.30 CPU (rtol=atol=1e-4 f32, 1e-2 f16)",
         "contrib ops without a CPU kernel in the installed onnxruntime (GroupNorm; SimplifiedLayerNormalization for "
         "mixed double/float) are decision-only: decision and attributes are tied to the model, numerics are not run",
-        "GQA, cos/sin-cache cast variants, mha_bias/mha_scale, packed-QKV GQA: exercised only through the repo's own "
-        "model builders under optimize_for_ort (searched, not modelled)",
+        "math.isclose decisions (pattern float literals, SDPA default scale): the theorems are about the same generic "
+        "definition at an ordered field (exact arithmetic); IEEE rounding inside the test is not modelled",
+        "the stage order of _core.py is re-read from the source on every run (translator); what each stage does is tied by "
+        "correspondence per family, not derived from the source",
         "A-ir: onnx_ir serde / shape inference / the optimizer passes inside optimize_for_ort are third-party or other "
         "properties' subjects; they are executed, not modelled",
     ]
     import logging
 
     logging.disable(logging.CRITICAL)  # onnx_ir logs every failed shape inference of a near-miss with a traceback
+    core_data, core_changed = regen_core_table(run)
     audit = run.prove(PROP_MODULES)
+    gen_now = core.LEAN / "OV" / "Gen" / "C19Core.lean"
+    if not audit["ok"] and (not gen_now.exists() or gen_now.read_text() != X.emit_lean(core_data)):
+        # the generated table follows the tree under test; a concurrent run against ANOTHER tree replaced it between
+        # our regeneration and our build: what was built is not what this run extracted
+        raise core.Infra("OV/Gen/C19Core.lean was rewritten by a concurrent C19 run on another tree; re-run")
     drv = core.Driver("C19")
+    core_diff = core_table_diff(drv, core_data)
+    run.coverage["core_table"].update(rows_differing_from_model=len(core_diff), first_difference=(core_diff or [None])[0])
     stats: Counter = Counter()
     nrng = np.random.default_rng(run.seed + 12345)
     if run.replay_path:
@@ -396,8 +509,13 @@ def main(run: core.Run) -> None:
         r = run_case(c, nrng, stats, numeric=True, e2e=True)
         m = drv.ask([r["line"]])[0]
         print(f"REPLAY line: {r['line']}\n  impl : {r['obs']}\n  model: {m}\n  numeric: {r['res']}\n  optimize_for_ort: {r['res_e2e']}")
-        if m != r["obs"] or r["res"].startswith("FAIL") or r["res_e2e"].startswith("FAIL"):
-            run.violation({"case": c, "impl": r["obs"], "model": m, "numeric": r["res"]}, "replayed case still fails")
+        m2 = None
+        if "obs2" in r:
+            m2 = drv.ask(["second " + r["line"]])[0]
+            print(f"  second application: impl counts {r['obs2']} :: model {m2} :: numeric {r.get('res2')}")
+        if (m != r["obs"] or r["res"].startswith("FAIL") or r["res_e2e"].startswith("FAIL") or str(r.get("res2", "ok")).startswith("FAIL")
+                or (m2 not in (None, "*") and m2 != r["obs2"])):
+            run.violation({"case": c, "impl": r["obs"], "model": m, "numeric": r["res"], "second": r.get("res2")}, "replayed case still fails")
         run.coverage.update(evaluations=1, distinct_nontrivial=1)
         return
 
@@ -445,6 +563,19 @@ def main(run: core.Run) -> None:
         lines.append(r["line"])
     stats["impl_seconds"] = int(time.time() - t_impl)
     outs = drv.ask(lines)
+    idx2 = [k for k, (c, r) in enumerate(results) if "obs2" in r]
+    outs2 = dict(zip(idx2, drv.ask(["second " + results[k][1]["line"] for k in idx2]))) if idx2 else {}
+    second_broken = []
+    for k, (c, r) in enumerate(results):
+        if k in outs2:
+            m2 = outs2[k]
+            branch_hits[f"second:{c['fam']}:" + ("fired" if fired("count=" + r["obs2"]) else "fixpoint")] += 1
+            if c["fam"] == "pipe" and not c.get("mask1d"):
+                branch_hits[f"second:pipe:{c['q_proj']}"] += 1
+            if m2 != "*" and m2 != r["obs2"]:
+                second_broken.append((c, r, m2))
+            if r.get("res2", "ok").startswith("FAIL"):
+                prop_fail.append((c, r, "res2"))
     for (c, r), m in zip(results, outs):
         fam = c["fam"]
         stats[f"{fam}:cases"] += 1
@@ -519,8 +650,21 @@ def main(run: core.Run) -> None:
                 if seen_g[gk] > 3:
                     continue
                 print("TIE", r["line"], "\n    impl ", r["obs"], "\n    model", m, "\n    ", json.dumps(c))
+    if second_broken:
+        run.coverage["second_application_disagreements"] = dict(Counter(f"{t[0]['fam']}: impl {t[1]['obs2']} vs model {t[2]}" for t in second_broken))
     if real_fail:
         pass
+    elif second_broken and not tie_broken:
+        second_broken.sort(key=lambda t: len(t[1]["line"]))
+        c, r, m2 = second_broken[0]
+        run.violation(
+            {"case": c, "line": r["line"], "impl_first": r["obs"], "impl_second": r["obs2"], "model_second": m2,
+             "numeric_second": r.get("res2"),
+             "broken": f"correspondence `C19 second {c['fam']}` vs a second {c['fam']} fuse call on the fused model ({len(second_broken)} disagreeing cases)"},
+            f"second application ({c['fam']}): the real code reports counts {r['obs2']} on its own output, the model {m2}: "
+            f"{r['line']}; numeric oracle on the disagreeing cases: {Counter(str(t[1].get('res2', 'ok')).split(':')[0] for t in second_broken)}",
+            no_input=True,
+        )
     elif tie_broken:
         # search: every tie-broken case was also executed numerically above; none failed the oracle
         tie_broken.sort(key=lambda t: len(t[1]["line"]))
@@ -530,6 +674,15 @@ def main(run: core.Run) -> None:
              "broken": f"correspondence OV.C19.{c['fam']} vs /repo fuse_* ({len(tie_broken)} disagreeing cases)"},
             f"correspondence broken ({c['fam']}): {r['line']} :: impl {r['obs']} :: model {m}; numeric oracle on the "
             f"disagreeing cases: {Counter(t[1]['res'].split(':')[0] for t in tie_broken)}",
+            no_input=True,
+        )
+    if core_diff and not real_fail:
+        # the order / constants of _core.py are no longer the ones the model and its theorems assume; every stream
+        # above (pipe / rope / shapeopt / e2e run the real fuse_xformers and optimize_for_ort) found no failing input
+        run.violation(
+            {"broken": "OV.Props.C19.core_tables_match_model (translator: ort_fusions/_core.py, sdpa.py, softmax.py)",
+             "differences": core_diff[:12]},
+            "the stage order / constants read from the source differ from the model's: " + "; ".join(core_diff[:3]),
             no_input=True,
         )
     if not audit["ok"]:
